@@ -173,7 +173,7 @@ def check_lib(ctx):
     okt = "self.tref" in stores and stores["self.tref"][1] == canon(parse("self.t_periastron - self.t0"))
     ctx.check(R, ki, "orbit: n = 2 pi / period, tref = t_periastron - t0", okn and okt, "n = %s, tref = %s" % (stores.get("self.n", (0, None))[1], stores.get("self.tref", (0, None))[1]), key="lib:n-tref")
     tp = [s for s in A.walk_local(ki) if isinstance(s, ast.Assign) and dotted(s.targets[0]) == "self.t_periastron"]
-    okp = any(canon(s.value) == canon(parse("as_tensor_variable(t_periastron)")) and any(canon(t) == canon(parse("t0 is None")) and pol for t, pol in A.guards_of(s)) for s in tp)
+    okp = any(canon(s.value) == canon(parse("as_tensor_variable(t_periastron)")) and "+t0 is None" in A.term_strings(A.path_condition(s, ki, inline=False)) for s in tp)
     ctx.check(R, ki, "orbit: a given t_periastron is used as such", okp, "t_periastron handling changed", key="lib:tperi")
     wt = ctx.prog.func(KO, "KeplerianOrbit._warp_times", R)
     rr = [canon(s.value) for s in A.walk_local(wt) if isinstance(s, ast.Return)]
